@@ -497,7 +497,9 @@ def _str(ex, v=""):
         return repr(float(v))
     if hasattr(v, "sym_str"):
         return v.sym_str(ex)
-    return OpaqueStr("str()")
+    r = OpaqueStr("str()")
+    r.args = [v]
+    return r
 
 
 def _next(ex, it, *default):
@@ -790,6 +792,10 @@ def pymethod(ex, o, name, args, kw):
                 except ValueError:
                     raise PyRaise("ValueError", "str." + name)
         if name == "join":
+            if isinstance(args[0], SymSeq):
+                r = OpaqueStr("join")
+                r.sep, r.seq = o, args[0]
+                return r
             parts = ex.iterate(args[0])
             if isinstance(o, str) and all(isinstance(p, str) for p in parts):
                 return o.join(parts)
